@@ -602,9 +602,33 @@ class Document:
         Returns: A new instance of Document with the tree copied.
 
         """
-        result = Document(copy(self.tree))
+        # The nodes are copied one by one: they link to each other along the whole score, so a
+        # recursive deepcopy of the tree exceeds the recursion limit on real scores.
+        nodes = [node for stage in self.tree.stages for node in stage]
+        copies = {id(node): Node.__new__(Node) for node in nodes}
+
+        def link(node):
+            return copies.get(id(node), node)
+
+        for node in nodes:
+            new_node = copies[id(node)]
+            new_node.id = node.id
+            new_node.stage = node.stage
+            new_node.token = deepcopy(node.token)
+            new_node.parent = link(node.parent)
+            new_node.children = [link(child) for child in node.children]
+            new_node.header_node = link(node.header_node)
+            new_node.last_spine_operator_node = link(node.last_spine_operator_node)
+            new_node.last_signature_nodes = SignatureNodes()
+            new_node.last_signature_nodes.nodes = {k: link(v) for k, v in node.last_signature_nodes.nodes.items()}
+
+        tree = MultistageTree()
+        tree.root = link(self.tree.root)
+        tree.stages = [[link(node) for node in stage] for stage in self.tree.stages]
+
+        result = Document(tree)
         result.measure_start_tree_stages = copy(self.measure_start_tree_stages)
-        result.page_bounding_boxes = copy(self.page_bounding_boxes)
+        result.page_bounding_boxes = deepcopy(self.page_bounding_boxes)
         result.header_stage = copy(self.header_stage)
 
         return result
